@@ -51,6 +51,8 @@ type Recorder struct {
 	MergeVeto func(peers []*memberlist.Node) error
 	// AliveFilter, when set, is consulted by NotifyAlive.
 	AliveFilter func(n *memberlist.Node) error
+	// OnNodeMeta, when set, runs inside the next NodeMeta call (and is cleared).
+	OnNodeMeta func()
 	// BlockMsg, when set, makes NotifyMsg wait on it (to hold the packet handler).
 	BlockMsg chan struct{}
 	// holdEvent (see Hold), when set, makes the membership event about holdName wait on it; the
@@ -174,6 +176,13 @@ func (r *Recorder) NotifyPingComplete(other *memberlist.Node, rtt time.Duration,
 
 // Delegate
 func (r *Recorder) NodeMeta(limit int) []byte {
+	r.mu.Lock()
+	h := r.OnNodeMeta
+	r.OnNodeMeta = nil
+	r.mu.Unlock()
+	if h != nil {
+		h() // once: the first call is the one Create makes while the node starts up
+	}
 	r.mu.Lock()
 	defer r.mu.Unlock()
 	return r.meta
